@@ -210,8 +210,13 @@ func EvalString(this any, code string, emptyEnv bool) (object.Object, error) {
 		if ok {
 			maxDepth = evalState.MaxDepth // in case it's lower, carry that lower value.
 		}
+		var ctx context.Context
+		if ok {
+			ctx = evalState.Context // the blank state must honour the caller's deadline too.
+		}
 		evalState = NewBlankState()
 		evalState.MaxDepth = maxDepth
+		evalState.Context = ctx
 	} else {
 		if !ok {
 			return object.NULL, fmt.Errorf("invalid this: %T", this)
